@@ -188,4 +188,199 @@ theorem del_map_run (r : Nat) (k : Val) (key : List Nat) (st : St) (hk : runM (s
 
 theorem del_badArgs : delB [] = throw (plain "Need a list or a map as first parameter and an index or key as second parameter") := rfl
 
+
+/-! ### add(l, v, i) and concat -/
+theorem append_inBounds (r l : Nat) (vs : List Val) (st st' : St) (r' l' : Nat) (hr : r < st.lists.size)
+    (h : runM (appendVals r l vs) st = (.ok (.list r' l'), st')) : r' < st'.lists.size ∧ st.lists.size ≤ st'.lists.size := by
+  by_cases hne : vs = []
+  · subst hne; rw [appendVals_nil] at h
+    injection h with h1 h2; injection h1 with h1; injection h1 with h1 _; subst h1; subst h2; exact ⟨hr, Nat.le_refl _⟩
+  · by_cases hfit : l + vs.length ≤ (st.backing r).length
+    · rw [appendVals_fits r l vs st hne hfit] at h
+      injection h with h1 h2; injection h1 with h1; injection h1 with h1 _; subst h1; subst h2
+      simp [hr]
+    · cases hc : growCap (st.backing r).length (l + vs.length) with
+      | none => exact absurd h (appendVals_noCap r l vs st st' _ hne hfit hc)
+      | some c =>
+        rw [appendVals_grows r l c vs st hne hfit hc] at h
+        injection h with h1 h2; injection h1 with h1; injection h1 with h1 _; subst h1; subst h2
+        simp
+
+theorem elems_length (st : St) (r l : Nat) (hl : l ≤ (st.backing r).length) : (st.elems r l).length = l := by
+  simp [St.elems, hl]
+
+theorem take_prefix_exact (x rest : List Val) (n : Nat) (h : x.length = n) : (x ++ rest).take n = x := by
+  rw [← h]; exact List.take_left'  rfl
+
+/-- `add(list, v, i)` with `0 ≤ i ≤ len` against the list model: the old elements with `v` inserted before
+    position `i`.  Like `append` it stays in the SAME backing array when the capacity suffices — then the tail from
+    `i` on is shifted in place, so only aliases of length ≤ `i` keep their elements (capacity unchanged) — or moves
+    to a NEW array, leaving the old array and all its aliases unchanged.  No other array changes. -/
+theorem insertAt_model (r l i : Nat) (v : Val) (st st' : St) (res : Val)
+    (hr : r < st.lists.size) (hl : l ≤ (st.backing r).length) (hi : i ≤ l)
+    (h : runM (insertAt r l v i) st = (.ok res, st')) :
+    ∃ r', res = .list r' (l + 1) ∧
+      st'.elems r' (l + 1) = (st.elems r l).take i ++ [v] ++ (st.elems r l).drop i ∧
+      (∀ q, q ≠ r' → st'.backing q = st.backing q) ∧
+      ((r' = r ∧ (st'.backing r).length = (st.backing r).length ∧ ∀ l2, l2 ≤ i → st'.elems r l2 = st.elems r l2) ∨
+       (r' = st.lists.size ∧ ∀ l2, st'.elems r l2 = st.elems r l2)) := by
+  unfold insertAt at h
+  rw [runM_bind] at h
+  cases ha : runM (appendVals r l [Val.num 0]) st with
+  | mk ra s1 =>
+    rw [ha] at h
+    cases ra with
+    | error e => simp at h
+    | ok x =>
+      obtain ⟨r', hx, hel, hoth, hcase⟩ := append_model r l [Val.num 0] st s1 x hr hl ha
+      subst hx
+      have hb := append_inBounds r l [Val.num 0] st s1 r' _ hr ha
+      simp only [List.length_cons, List.length_nil, Nat.zero_add] at h hel
+      rw [runM_bind, getBacking_run] at h
+      simp only at h
+      rw [runM_bind, setBacking_run] at h
+      simp only [runM_pure] at h
+      injection h with h1 h2; injection h1 with h1; subst h1; subst h2
+      have hold : (st.elems r l).length = l := elems_length st r l hl
+      have hcur : (s1.backing r').take (l + 1) = st.elems r l ++ [Val.num 0] := hel
+      have hblen : l + 1 ≤ (s1.backing r').length := by
+        have : ((s1.backing r').take (l + 1)).length = l + 1 := by rw [hcur]; simp [hold]
+        simp at this; omega
+      have h1 : ((s1.backing r').take (l + 1)).take i = (st.elems r l).take i := by
+        rw [hcur, List.take_append_of_le_length (by omega)]
+      have h2 : (((s1.backing r').take (l + 1)).drop i).take (l + 1 - i - 1) = (st.elems r l).drop i := by
+        rw [hcur, List.drop_append_of_le_length (by omega)]
+        apply take_prefix_exact
+        simp [hold]; omega
+      have hnew : ({ s1 with lists := s1.lists.setIfInBounds r' (((s1.backing r').take (l + 1)).take i ++ [v] ++
+          (((s1.backing r').take (l + 1)).drop i).take (l + 1 - i - 1) ++ (s1.backing r').drop (l + 1)) } : St).backing r' =
+          ((st.elems r l).take i ++ [v] ++ (st.elems r l).drop i) ++ (s1.backing r').drop (l + 1) := by
+        rw [backing_set_same s1 r' _ hb.1, h1, h2]
+      have hlen3 : ((st.elems r l).take i ++ [v] ++ (st.elems r l).drop i).length = l + 1 := by
+        simp [hold]; omega
+      refine ⟨r', rfl, ?_, ?_, ?_⟩
+      · simp only [St.elems] at hnew ⊢
+        rw [hnew]
+        exact take_prefix_exact _ _ _ hlen3
+      · intro q hq
+        rw [backing_set_other s1 r' q _ hq]; exact hoth q hq
+      · rcases hcase with ⟨e, hlen, _⟩ | ⟨e, hal⟩
+        · left
+          subst e
+          refine ⟨rfl, ?_, ?_⟩
+          · rw [hnew]; simp [hold]; omega
+          · intro l2 hl2
+            simp only [St.elems] at hnew ⊢
+            rw [hnew, List.append_assoc, List.append_assoc, List.take_append_of_le_length (by simp [hold]; omega), List.take_take]
+            simp only [St.elems, List.take_take]
+            congr 1; omega
+        · right
+          refine ⟨e, ?_⟩
+          intro l2
+          have hne : r ≠ r' := by rw [e]; exact Nat.ne_of_lt hr
+          simp only [St.elems]
+          rw [backing_set_other s1 r' r _ hne]
+          exact hal l2
+
+/-- `add(l, v, i)`: index check and insertion -/
+theorem add_insert_run (r l : Nat) (v : Val) (x : Float) (i : Int) (st : St) (hi : runM (goInt x) st = (.ok i, st))
+    (hint : isIntegral x = true) :
+    runM (addB [.list r l, v, .num x]) st =
+      if i < 0 || i > (l : Int) then (.error (plain "Out of bounds access to list"), st)
+      else runM (insertAt r l v i.toNat) st := by
+  unfold addB
+  simp only
+  rw [runM_bind]
+  simp only [numParamB, runM_pure]
+  rw [runM_bind, hi]
+  simp only [hint, Bool.not_true, Bool.false_eq_true, if_false]
+  split <;> rfl
+
+/-- the elements a concat argument contributes -/
+def St.elemsOf (st : St) : Val → List Val
+  | .list r l => st.elems r l
+  | _ => []
+
+theorem concatGo_model (st0 : St) : ∀ (args : List Val) (cr cl : Nat) (s s' : St) (res : Val),
+    (∀ a ∈ args, ∃ r l, a = .list r l ∧ r < st0.lists.size) →
+    st0.lists.size ≤ cr → cr < s.lists.size → cl ≤ (s.backing cr).length →
+    (∀ q, q < st0.lists.size → s.backing q = st0.backing q) →
+    runM (concatGo args (.list cr cl)) s = (.ok res, s') →
+    ∃ r' l', res = .list r' l' ∧ st0.lists.size ≤ r' ∧
+      s'.elems r' l' = s.elems cr cl ++ args.flatMap st0.elemsOf ∧
+      ∀ q, q < st0.lists.size → s'.backing q = st0.backing q := by
+  intro args
+  induction args with
+  | nil =>
+    intro cr cl s s' res _ hcr _ _ hk h
+    simp only [concatGo, runM_pure] at h
+    injection h with h1 h2; injection h1 with h1; subst h1; subst h2
+    exact ⟨cr, cl, rfl, hcr, by simp, hk⟩
+  | cons a rest ih =>
+    intro cr cl s s' res hargs hcr hcs hcl hk h
+    obtain ⟨r, l, ha, hr⟩ := hargs a (by simp)
+    subst ha
+    simp only [concatGo] at h
+    rw [runM_bind, getList_run] at h
+    simp only at h
+    rw [runM_bind] at h
+    cases hap : runM (appendVals cr cl (s.elems r l)) s with
+    | mk ra s1 =>
+      rw [hap] at h
+      cases ra with
+      | error e => simp at h
+      | ok x =>
+        simp only at h
+        obtain ⟨r', hx, hel, hoth, hcase⟩ := append_model cr cl (s.elems r l) s s1 x hcs hcl hap
+        subst hx
+        have hb := append_inBounds cr cl (s.elems r l) s s1 r' _ hcs hap
+        have hr'ge : st0.lists.size ≤ r' := by
+          rcases hcase with ⟨e, _⟩ | ⟨e, _⟩
+          · rw [e]; exact hcr
+          · rw [e]; omega
+        have hk1 : ∀ q, q < st0.lists.size → s1.backing q = st0.backing q := by
+          intro q hq
+          rw [hoth q (by omega)]; exact hk q hq
+        have hsame : s.elems r l = st0.elems r l := by simp only [St.elems, hk r hr]
+        have hcl1 : cl + (s.elems r l).length ≤ (s1.backing r').length := by
+          have h5 : (s1.elems r' (cl + (s.elems r l).length)).length = cl + (s.elems r l).length := by
+            rw [hel, List.length_append, elems_length s cr cl hcl]
+          generalize (s.elems r l).length = n at h5 ⊢
+          have h6 : (s1.elems r' (cl + n)).length = min (cl + n) (s1.backing r').length := by simp [St.elems]
+          omega
+        obtain ⟨r2, l2, e1, e2, e3, e4⟩ := ih r' _ s1 s' res (fun b hb' => hargs b (by simp [hb'])) hr'ge hb.1 hcl1 hk1 h
+        refine ⟨r2, l2, e1, e2, ?_, e4⟩
+        rw [e3, hel, hsame]
+        simp [St.elemsOf, List.append_assoc]
+
+/-- `concat(l1, l2, …)` (at least two lists): the result holds the elements of all arguments in order and lives in a
+    NEW backing array — no existing array, hence no argument and no alias of one, changes -/
+theorem concat_model (args : List Val) (st st' : St) (res : Val)
+    (hargs : ∀ a ∈ args, ∃ r l, a = .list r l ∧ r < st.lists.size)
+    (h : runM (concatB args) st = (.ok res, st')) :
+    ∃ r' l', res = .list r' l' ∧ st.lists.size ≤ r' ∧ st'.elems r' l' = args.flatMap st.elemsOf ∧
+      ∀ q, q < st.lists.size → st'.backing q = st.backing q := by
+  unfold concatB at h
+  by_cases hlen : args.length < 2
+  · simp only [hlen, if_true] at h
+    rw [runM_bind, runM_throw] at h
+    simp at h
+  · simp only [hlen, if_false] at h
+    rw [runM_bind, newBacking_run] at h
+    simp only at h
+    have := concatGo_model st args st.lists.size 0 _ st' res hargs (Nat.le_refl _) (by simp) (Nat.zero_le _)
+      (fun q hq => backing_push_old st q [] (Nat.ne_of_lt hq)) h
+    obtain ⟨r', l', e1, e2, e3, e4⟩ := this
+    exact ⟨r', l', e1, e2, by rw [e3]; simp [St.elems], e4⟩
+
+theorem concat_fewArgs (args : List Val) (st : St) (h : args.length < 2) :
+    runM (concatB args) st = (.error (plain "Need at least two lists as parameters"), st) := by
+  unfold concatB
+  simp only [h, if_true]
+  rw [runM_bind, runM_throw]
+
+theorem concat_notList (a : Val) (rest : List Val) (cur : Val) (h : ∀ r l, a ≠ .list r l) :
+    concatGo (a :: rest) cur = throw (plain "Parameter 1 should be a list") := by
+  cases a <;> first | rfl | (exfalso; exact h _ _ rfl)
+
 end Ecal.Ev
